@@ -122,6 +122,15 @@ def _gather(
         raise RuntimeError(
             f"Cannot gather tensordict with shape {input.shape} along dim {dim_orig}."
         )
+    # only the gathering dim of the index may differ from the batch size: the index is
+    # expanded to the shape of every entry below, which would silently broadcast a
+    # singleton dim and return entries that are bigger than the batch size of the result
+    for i, (index_size, batch_size) in enumerate(zip(index.shape, input.batch_size)):
+        if i != dim and index_size != batch_size:
+            raise RuntimeError(
+                f"The index of shape {index.shape} can only differ from the batch size "
+                f"{input.batch_size} along the gathering dim {dim_orig}."
+            )
 
     def _gather_tensor(tensor, dest_container=None, dest_key=None):
         if dest_container is not None:
